@@ -425,35 +425,24 @@ def any_params_star(sig):
     return False
 
 
-class cleanup_functools_wrapper(object):
-    attrs = ['__wrapped__', '__signature__']
-
-    def __init__(self, func):
-        self.func = func
-
-    def __enter__(self):
-        try:
-            self.saved_attrs
-        except AttributeError:
-            pass
-        else:
-            raise NotImplementedError('This context manager is not reentrant')
-        self.saved_attrs = {}
-        for attr in self.attrs:
-            try:
-                self.saved_attrs[attr] = getattr(self.func, attr)
-                delattr(self.func, attr)
-            except AttributeError:
-                pass
-
-    def __exit__(self, *exc):
-        for attr, val in self.saved_attrs.items():
-            setattr(self.func, attr, val)
+def _own_signature(func):
+    """Signature of ``func`` itself, disregarding ``__wrapped__`` and
+    ``__signature__``, computed without modifying ``func``: other threads, or
+    an exception raised half-way, must never see it stripped of them."""
+    if isinstance(func, types.FunctionType):
+        bare = types.FunctionType(
+            func.__code__, func.__globals__, func.__name__,
+            func.__defaults__, func.__closure__)
+        bare.__kwdefaults__ = func.__kwdefaults__
+        bare.__annotations__ = func.__annotations__
+        sig = _util.funcsigs.signature(bare)
+    else:
+        sig = _util.funcsigs.signature(func, follow_wrapped=False)
+    return _signatures.set_default_sources(sig, func)
 
 
 def autoforwards_function(func, args, kwargs):
-    with cleanup_functools_wrapper(func):
-        sig = _signatures.signature(func)
+    sig = _own_signature(func)
     if not any_params_star(sig):
         raise UnknownForwards
     func_ast = _util.get_ast(func)
